@@ -1,6 +1,7 @@
 """C03 - Validation stringency changes how problems are reported, never what is parsed.
 
-Every case is one input run under Strict, Lenient and Silent through one of
+Every case is one input run under Strict, Lenient, Silent and the default (None,
+which must behave as Silent) through one of
 the five public entry points that take a stringency:
   header   MafHeader.from_lines(lines, validation_stringency=m)
   line     MafRecord.from_line(line, column_names/scheme, line_number, validation_stringency=m)
@@ -21,14 +22,16 @@ CLUSTER = "Reader"
 PROPS = "props/C03.v"
 N_QUICK = 1800
 N_THOROUGH = 24000
-RULE = ("one input under the three stringencies for each of five entry points: header line sequences (pragma grammar "
+RULE = ("one input under the three stringencies and the default (None) for each of five entry points: header line sequences (pragma grammar "
         "of C13), single records (explicit names and/or scheme: untyped, NoRestrictions, gdc-1.0.0 with valid lines "
         "from the real classes' accepted texts; defects: field count, invalid/control-character field, names not "
         "matching the scheme, duplicated names, no line number), record.validate (reset on/off, scheme none/same/"
         "other, stored columns modified in place: column_index or key reassigned), whole files (the valid/defect/boundary/adversarial stream of C16, with and without sort orders and "
         "contigs), writer sessions (header with/without scheme, 0-4 records some invalid; through from_fd on StringIO "
         "and from_path on plain and .gz scratch files under /verif/work; sorting writers - assume_sorted=False under a "
-        "declared coordinate-type order - observed through close()); texts with %, %s, %d in pragma values, keys, column "
+        "declared coordinate-type order - observed through close()); inputs collecting more than 100 errors in one call (101 broken pragma lines, a reversed 119-column line); a "
+        "caller-supplied scheme of another version together with header defects; writers given a header object that "
+        "remembers another stringency; texts with %, %s, %d in pragma values, keys, column "
         "names and cells so that echoed diagnostics contain format characters; non-trivial: at least one "
         "validation error is collected in Silent mode; distinct by case hash")
 ASSUMPTIONS = [
@@ -127,7 +130,9 @@ def _gen_writer(rng, stream):
                 line = _spoil(rng, line).replace("\n", " ")
             specs.append({"line": line, "names": names, "scheme": None, "ln": rng.choice([None, 5])})
     return {"kind": "writer", "stream": stream, "hlines": hl, "specs": specs,
-            "channel": rng.choice(["fd", "fd", "path", "gz", "gz"])}
+            "channel": rng.choice(["fd", "fd", "path", "gz", "gz"]),
+            # the header object may remember another stringency than the one the writer is given
+            "hmode": rng.choice([None, None, "Lenient", "Strict", "Strict"])}
 
 
 def _gen_sorting_writer(rng, stream):
@@ -203,6 +208,15 @@ def generate(rng, n):
     out = []
     for c in R.reader_boundary_cases():
         out.append({"kind": "reader", "stream": "boundary", "lines": c["lines"], "override": None})
+    for c in R.many_error_cases():
+        out.append(dict(c, stream="many-errors"))
+    for c in R.order_special_cases():
+        if c["shape"]["defect"] == "override+hdr":
+            out.append({"kind": "reader", "stream": "override+hdr", "lines": c["lines"], "override": c["override"]})
+    for hm in ("Lenient", "Strict"):
+        for hl in (["#center x"], ["#version v9", "#annotation.spec nope"], []):
+            out.append({"kind": "writer", "stream": "header-mode", "hlines": hl, "channel": "fd", "hmode": hm,
+                        "specs": [{"line": "1\t2", "names": ["a", "b"], "scheme": None, "ln": None}]})
     for k, c in enumerate(R.typed_special_cases()):
         if c["shape"]["defect"] == "format-text" or k % 7 == 0:
             out.append({"kind": "reader", "stream": "typed-special", "lines": c["lines"], "override": None})
@@ -283,7 +297,7 @@ def _impl(case, m):
         return R.impl_from_line(case["spec"], m)
     if k == "validate":
         return R.impl_validate(case["spec"], m, case["reset"], case["vscheme"], case.get("tamper"))
-    return R.impl_writer(case["hlines"], m, case["specs"], case.get("channel", "fd"))
+    return R.impl_writer(case["hlines"], m, case["specs"], case.get("channel", "fd"), case.get("hmode"))
 
 
 def _dec(case, sx):
@@ -299,16 +313,19 @@ def _dec(case, sx):
     return R.dec_writer(sx)
 
 
+RUNS = MODES + [None]           # the three stringencies and the default (None: documented as Silent)
+
+
 def to_model(case):
-    return [9] + [_wire(case, m) for m in MODES]
+    return [9] + [_wire(case, m) for m in RUNS]
 
 
 def run_impl(case):
-    return {m: _impl(case, m) for m in MODES}
+    return {str(m): _impl(case, m) for m in RUNS}
 
 
 def from_model(case, sx):
-    out = {m: _dec(case, s) for m, s in zip(MODES, sx)}
+    out = {str(m): _dec(case, s) for m, s in zip(RUNS, sx)}
     if case["kind"] == "writer" and case.get("channel") == "sorted":
         for m in out:           # the order and re-rendering of sorted output belong to C10; C03 compares the rest
             out[m].pop("out", None)
@@ -332,13 +349,17 @@ def _covers(log, errs, out, what):
     for r in log:
         if r[0] == "unformattable":
             out.append("%s-lenient-warning-could-not-be-formatted" % what)
-        if r[-1] != "WARNING":
-            out.append("%s-lenient-log-level %r" % (what, r[-1]))
+        level = r[2] if r[0] == "other" else r[-1]
+        if level != "WARNING":
+            out.append("%s-lenient-log-level %r" % (what, level))
+    missing = 0
     for e in errs:
         if e in pool:
-            pool.remove(e)
-        elif e not in [r[2] for r in log if r[0] == "ign"]:
-            out.append("%s-lenient-did-not-warn %r" % (what, e))
+            pool.remove(e)          # one warning per collected error: counted, not just present
+        else:
+            missing += 1
+            if missing == 1:
+                out.append("%s-lenient-did-not-warn %r (%d errors, %d warnings)" % (what, e, len(errs), len([r for r in log if r[0] == "ign"])))
 
 
 def _simple(what, S, L, T, errs_of, out):
@@ -475,6 +496,8 @@ def _sorting_writer(S, L, T, out):
 def oracle(case, obs):
     out = []
     S, L, T = obs["Silent"], obs["Lenient"], obs["Strict"]
+    if "None" in obs and comparable({"x": obs["None"]}) != comparable({"x": S}):
+        out.append("%s-default-stringency-differs-from-silent" % case["kind"])
     k = case["kind"]
     if k == "header":
         _simple("header", S, L, T, lambda h: h["errs"], out)
